@@ -125,6 +125,19 @@ impl FileSystem for OverlayFS {
 
     fn create_dir(&self, path: &str) -> VfsResult<()> {
         self.ensure_has_parent(path)?;
+        match self.read_path(path) {
+            Ok(existing) => {
+                return Err(if existing.is_dir()? {
+                    VfsErrorKind::DirectoryExists.into()
+                } else {
+                    VfsErrorKind::FileExists.into()
+                })
+            }
+            Err(err) => match err.kind() {
+                VfsErrorKind::FileNotFound => {}
+                _ => return Err(err),
+            },
+        }
         self.write_path(path)?.create_dir()?;
         let whiteout_path = self.whiteout_path(path)?;
         if whiteout_path.exists()? {
@@ -139,6 +152,17 @@ impl FileSystem for OverlayFS {
 
     fn create_file(&self, path: &str) -> VfsResult<Box<dyn SeekAndWrite + Send>> {
         self.ensure_has_parent(path)?;
+        match self.read_path(path) {
+            Ok(existing) => {
+                if existing.is_dir()? {
+                    return Err(VfsErrorKind::Other("Path is a directory".into()).into());
+                }
+            }
+            Err(err) => match err.kind() {
+                VfsErrorKind::FileNotFound => {}
+                _ => return Err(err),
+            },
+        }
         let result = self.write_path(path)?.create_file()?;
         let whiteout_path = self.whiteout_path(path)?;
         if whiteout_path.exists()? {
